@@ -1,0 +1,8 @@
+//go:build verif
+
+package nlp
+
+// VerifTFIDFTokenize exposes the TF-IDF tokenizer. Not built without -tags verif.
+func VerifTFIDFTokenize(text string) []string {
+	return (&TFIDFSearcher{}).tokenize(text)
+}
